@@ -87,7 +87,7 @@ add('C07', 'proof', 'Lean 4 theorems: ValidCode for ALL accepted sizes of all fi
     'onto [0,n), n and stabilizer-count formulas (incl. the float-safety of the colour n formula), commutation, pairing, '
     'rank via explicit destabilisers (paths / runs to a reference plaquette or boundary) and explicit dependencies (each '
     'site lies in exactly two plaquettes of a type on the tori), constructor domain over a Python value universe, '
-    'site/plaquette read-back — and for the five-qubit and Steane codes by kernel evaluation: 86 theorems. Tied to the code '
+    'site/plaquette read-back — and for the five-qubit and Steane codes by kernel evaluation; the planar path-to-nearest-virtual-plaquette family is a destabiliser family for all sizes (Props/C07/PlanarPath.lean): 101 theorems. Tied to the code '
     'for every family by exact equality of stabilizers / logicals / n_k_d / index maps / constructor outcomes with the '
     'executable Lean models for every size up to the bound, and C07 itself (commutation, pairing, GF(2) rank n-k by '
     'elimination, logical independence) evaluated directly on the real matrices.',
@@ -114,7 +114,7 @@ add('C17', 'proof', 'Lean 4 theorems about an inverse-CDF stream model + bit-exa
     '[0,1)^n): IF the consumed uniforms are i.i.d. uniform THEN each qubit suffers I/X/Y/Z with exactly the model\'s '
     'probabilities, qubits are independent (product law, equality of measures), each syndrome bit flips with probability q '
     'independently, and a whole FTP step / run has the product law — also on the actual 2^-53 grid (error < 2^-53 per '
-    'letter) — 69 theorems in total. Uniformity/independence of PCG64 is trusted; a chi-square test and an exact binomial '
+    'letter; for a whole n-qubit error |grid count / N^n - prod d| <= n/N and <= (n+m)/N for an FTP step, l1 <= 4n/N), as an equality of measures for T-step runs, and at STREAM level (Props/C17/MeasureMore.lean): under the infinite product of uniform laws on the stream the push-forward of a run from ANY position is the T-fold product of the step law and consecutive runs are independent — 92 theorems in total. Uniformity/independence of PCG64 is trusted; a chi-square test and an exact binomial '
     'test at extreme q are reported as supporting tests only.',
     TB + 'numpy Generator.choice consumption contract re-validated each run; PCG64 statistical quality trusted.')
 add('C12', 'proof', 'Lean 4 theorems: shape/control-flow model of the sweeps (singular values as oracle input) + the algebraic contracts over R with the QR/SVD factorisation as hypothesis; exact shape correspondence and numeric contract monitors',
@@ -125,7 +125,7 @@ add('C12', 'proof', 'Lean 4 theorems: shape/control-flow model of the sweeps (si
     'LAPACK oracle contract: a sweep preserves the represented tensor up to the accumulated norm, all sites but the centre '
     'are isometries, the normalised result has unit norm, and for a truncating sweep the squared distance equals the '
     'accumulated discarded weight (an equality, so the bound of the property holds); the shape model is proved to be the '
-    'shadow of the algebraic sweep relation (Props/C12/Link.lean) — 34 theorems. That LAPACK meets its '
+    'shadow of the algebraic sweep relation (Props/C12/Link.lean) and conversely every zero-free run of the shape model (QR and SVD steps, lcf / rcf / truncate) is the shadow of a derivation when each oracle list is the singular values of the matrix met; the zero exits return a chain representing 0 * psi; an MPO with E*W = d has the control flow of the merged leg (Props/C12/Link2.lean) — 49 theorems. That LAPACK meets its '
     'contract in floating point is NOT a theorem: isometry, preservation, unit norm, error <= discarded weight and '
     'NaN-freedom are evaluated with tolerances on the real outputs of every generated case (evidence: explored).',
     TB + 'scipy/LAPACK QR and SVD are oracles (recorded by wrapping them from the harness); the link between the shape '
@@ -231,8 +231,8 @@ add('C02', 'proof', 'Lean 4 theorems: recovery reproduces the syndrome for EVERY
     '6.6.6 tensor-network decoders and any product with logicals; the planar Y decoder for ALL R, C >= 2 and every Y-only '
     'error (snake fills, destabilisers incl. the co-prime billiard lemma, residual look-up table sound and total, '
     'Y-stabilizers = the 2^(gcd-1) Y-only centraliser elements, decode never raises); for the SMWPM decoders also EXISTENCE of '
-    'perfect matchings at finite bias, at infinite bias for Y-only noise and at p = 0 (so decoding never fails given a maximum-cardinality matching); the naive decoder (sound, complete, guard); the monitor recoveryOk decides the property for all '
-    'errors with that syndrome at once. C15/C07 interface hypotheses are discharged (Props/C02/Instances.lean) — 119 theorems. '
+    'perfect matchings at finite bias, at infinite bias for Y-only noise and at p = 0 (so decoding never fails given a maximum-cardinality matching), with the line-parity / feasibility conditions proved NECESSARY as well (iff), and the toric _cluster_graph assert (even number of defective clusters) proved never to fire on reachable syndrome arrays (Props/C02/SmwpmEven.lean); the naive decoder (sound, complete, guard); the monitor recoveryOk decides the property for all '
+    'errors with that syndrome at once. C15/C07 interface hypotheses are discharged (Props/C02/Instances.lean) — 136 theorems. '
     'Tie: exact comparison of sample_recovery, recorded gt.mwpm graphs / matchings / clusters / stage recoveries / final '
     'recovery given the recorded matchings, the Y decoder\'s cached operators and residual table; and every registry decoder run '
     'on real syndromes (all syndromes of the smallest codes, every weight on larger ones, all parameterisations and context '
